@@ -28,8 +28,8 @@ enum OpKind {
 };
 // Op fields (c15): d = remover * 8 + target * 4 + key... see code: a = callback id (= slot) / other remover, b = slot / how, c = how (0 append, 1 prepend, 2 insert before slot b)
 // Op fields (c16): a = callback id, b = count (counter) or outcome pattern (conditional), c = flags (bit0-1 how, bit2 condition takes the argument, bit3 listener re-triggers its own key), d = target * 4 + key
-enum { U_VARIANT = 0 };
-enum { V_LIST = 0, V_DISPATCHER = 1, V_QUEUE = 2, V_HETER = 3, V_COUNT = 4 };
+enum { U_VARIANT = 0, U_FILL = 1 };
+enum { V_LIST = 0, V_DISPATCHER = 1, V_QUEUE = 2, V_HETER = 3, V_HETER_REF = 4, V_LIST_SPIN = 5, V_COUNT = 6 };
 
 struct Sink
 {
@@ -80,7 +80,7 @@ struct CondBoth : Tracked<seq::T_COND, false>
 
 struct Counters
 {
-	uint64_t plans, ops, addsThroughRemover, removesThroughRemover, resets, retargets, moveAssignIntoNonEmpty, moveAssigns, moveConstructs, swaps, destroys, triggers, listenerCalls,
+	uint64_t plans, ops, interruptedResets, dirtyConstructions, addsThroughRemover, removesThroughRemover, resets, retargets, moveAssignIntoNonEmpty, moveAssigns, moveConstructs, swaps, destroys, triggers, listenerCalls,
 		limboItems, counterAdds, conditionalAdds, reentrantTriggers, conditionEvaluations, detachedByCount, detachedByCondition, queuedTriggers, nonPositiveCounts,
 		faultRuns, faultsInjected, faultsByKind[F_KINDS], opsFailedByFault;
 	uint64_t perVariant[V_COUNT];
@@ -108,12 +108,17 @@ struct EvKey
 } // namespace sr
 namespace std { template <> struct hash<sr::EvKey> { size_t operator() (const sr::EvKey & k) const { sim::faultPoint(sim::F_CMP); return std::hash<int>()(k.v); } }; }
 namespace sr {
-struct ListTarget
+// the real SpinLock as the mutex of the list AND of the remover's own bookkeeping, run inside one simulated task: a lock that
+// does not start out unlocked (the remover is built in dirtied storage) is a deterministic self-deadlock instead of a hang
+struct PolDefault {};
+struct PolSpinSim { typedef seq::SimSpinThreading Threading; };
+template <typename POL, bool INSIM>
+struct ListTargetT
 {
-	typedef eventpp::CallbackList<void (int)> T;
-	typedef T::Handle Handle;
+	typedef eventpp::CallbackList<void (int), POL> T;
+	typedef typename T::Handle Handle;
 	typedef eventpp::ScopedRemover<T> Scoped;
-	enum { keys = 1, queue = 0, heter = 0 };
+	enum { keys = 1, queue = 0, heter = 0, inSim = INSIM ? 1 : 0, conditional = 1 };
 	static Handle add(T & t, int, int how, const Fn & f, const Handle & b) { return how == 0 ? t.append(f) : how == 1 ? t.prepend(f) : t.insert(f, b); }
 	static Handle radd(Scoped & r, int, int how, const Fn & f, const Handle & b) { return how == 0 ? r.append(f) : how == 1 ? r.prepend(f) : r.insert(f, b); }
 	static bool remove(T & t, int, const Handle & h) { return t.remove(h); }
@@ -127,6 +132,8 @@ struct ListTarget
 	template <typename L, typename C> static Handle xadd(T & t, int, int how, const L & l, const Handle & b, const C & c)
 	{ eventpp::ConditionalRemover<T> xr(t); return how == 0 ? xr.append(l, c) : how == 1 ? xr.prepend(l, c) : xr.insert(l, b, c); }
 };
+typedef ListTargetT<PolDefault, false> ListTarget;
+typedef ListTargetT<PolSpinSim, true> SpinListTarget;
 
 template <typename TT, bool QUEUE>
 struct DispTargetT
@@ -134,7 +141,7 @@ struct DispTargetT
 	typedef TT T;
 	typedef typename T::Handle Handle;
 	typedef eventpp::ScopedRemover<T> Scoped;
-	enum { keys = NKEY, queue = QUEUE ? 1 : 0, heter = 0 };
+	enum { keys = NKEY, queue = QUEUE ? 1 : 0, heter = 0, inSim = 0, conditional = 1 };
 	static Handle add(T & t, int k, int how, const Fn & f, const Handle & b) { return how == 0 ? t.appendListener(k, f) : how == 1 ? t.prependListener(k, f) : t.insertListener(k, f, b); }
 	static Handle radd(Scoped & r, int k, int how, const Fn & f, const Handle & b) { return how == 0 ? r.appendListener(k, f) : how == 1 ? r.prependListener(k, f) : r.insertListener(k, f, b); }
 	static bool remove(T & t, int k, const Handle & h) { return t.removeListener(k, h); }
@@ -168,7 +175,7 @@ struct HeterTarget
 	typedef eventpp::HeterEventDispatcher<int, eventpp::HeterTuple<void (int), void ()> > T;
 	typedef T::Handle Handle;
 	typedef NoScoped Scoped;
-	enum { keys = NKEY, queue = 0, heter = 1 };
+	enum { keys = NKEY, queue = 0, heter = 1, inSim = 0, conditional = 1 };
 	static Handle add(T & t, int k, int how, const Fn & f, const Handle & b) { return how == 0 ? t.appendListener(k, f) : how == 1 ? t.prependListener(k, f) : t.insertListener(k, f, b); }
 	static Handle radd(Scoped &, int, int, const Fn &, const Handle &) { return Handle(); }
 	static bool remove(T & t, int k, const Handle & h) { return t.removeListener(k, h); }
@@ -181,6 +188,40 @@ struct HeterTarget
 	{ eventpp::CounterRemover<T> cr(t); return how == 0 ? cr.appendListener(k, l, n) : how == 1 ? cr.prependListener(k, l, n) : cr.insertListener(k, l, b, n); }
 	template <typename L, typename C> static Handle xadd(T & t, int k, int how, const L & l, const Handle & b, const C & c)
 	{ eventpp::ConditionalRemover<T> xr(t); return how == 0 ? xr.appendListener(k, l, c) : how == 1 ? xr.prependListener(k, l, c) : xr.insertListener(k, l, b, c); }
+};
+
+// A heterogeneous target whose first prototype takes a DERIVED object by value and whose second takes the BASE by non-const
+// reference. A listener taking `Base &` can be called with the second prototype only (it cannot bind the first one's rvalue), and
+// a wrapper around it must land in that same prototype slot: "its event or list ... for heterogeneous targets".
+struct RBase { int v; explicit RBase(int v_) : v(v_) {} };
+struct RDerived : RBase { explicit RDerived(int v_) : RBase(v_) {} };
+struct FnRef
+{
+	Fn fn;
+	explicit FnRef(const Fn & f) : fn(f) {}
+	void operator() (RBase & b) const { fn(b.v); }
+};
+struct HeterRefTarget
+{
+	typedef eventpp::HeterEventDispatcher<int, eventpp::HeterTuple<void (RDerived), void (RBase &)> > T;
+	typedef T::Handle Handle;
+	typedef NoScoped Scoped;
+	enum { keys = NKEY, queue = 0, heter = 1, inSim = 0, conditional = 0 };
+	static Handle add(T & t, int k, int how, const Fn & f, const Handle & b) { const FnRef l(f); return how == 0 ? t.appendListener(k, l) : how == 1 ? t.prependListener(k, l) : t.insertListener(k, l, b); }
+	static Handle radd(Scoped &, int, int, const Fn &, const Handle &) { return Handle(); }
+	static bool remove(T & t, int k, const Handle & h) { return t.removeListener(k, h); }
+	static bool rremove(Scoped &, int, const Handle &) { return false; }
+	static void setTarget(Scoped &, T &) {}
+	// a trigger of the OTHER prototype first (its argument value is one no listener of this engine expects), then the trigger proper
+	static void trigger(T & t, int k, int v) { t.dispatch(k, RDerived(v + 100000)); RBase b(v); t.dispatch(k, b); }
+	static void qtrigger(T & t, int k, int v) { RBase b(v); t.dispatch(k, b); t.dispatch(k, RDerived(v + 200000)); }
+	template <typename F> static void forEach(T & t, int k, F f) { t.forEach<void (RBase &)>(k, f); }
+	template <typename L> static Handle cadd(T & t, int k, int how, const L & l0, const Handle & b, int n)
+	{ const FnRef l(l0); eventpp::CounterRemover<T> cr(t); return how == 0 ? cr.appendListener(k, l, n) : how == 1 ? cr.prependListener(k, l, n) : cr.insertListener(k, l, b, n); }
+	// ConditionalRemover's wrapper is callable with whatever its condition accepts or, failing that, with anything: for this
+	// prototype list it claims the first prototype and then does not compile around a `Base &` listener. A compile-time limit,
+	// not a behaviour: conditional adds are not generated for this target (doOp skips them).
+	template <typename L, typename C> static Handle xadd(T &, int, int, const L &, const Handle &, const C &) { return Handle(); }
 };
 
 // ---------------------------------------------------------------- interpreter
@@ -223,7 +264,7 @@ struct Interp : Sink
 	int nKeys;
 	int fuel;
 
-	Interp(const Plan & p, bool c16_) : plan(p), c16(c16_), logHash(kHashInit), fuel(0)
+	Interp(const Plan & p, bool c16_) : plan(p), c16(c16_), logHash(kHashInit), fuel(0), fillState(12345u + (uint32_t)p.user(U_FILL))
 	{
 		for(int i = 0; i < NTARGET; ++i) targets[i] = nullptr;
 		for(int i = 0; i < NREMOVER; ++i) { removers[i] = nullptr; removerTarget[i] = -1; }
@@ -333,10 +374,43 @@ struct Interp : Sink
 		frames.pop_back();
 	}
 
+	// the storage a remover is built in holds a pattern chosen by the plan ("what the object's memory held before construction")
+	typename std::aligned_storage<sizeof(Scoped), alignof(Scoped)>::type removerStorage[NREMOVER];
+	uint32_t fillState;
+	void * dirty(int r)
+	{
+		unsigned char * p = reinterpret_cast<unsigned char *>(&removerStorage[r]);
+		const int pattern = plan.user(U_FILL) & 3;
+		for(size_t i = 0; i < sizeof(Scoped); ++i) {
+			fillState = fillState * 1664525u + 1013904223u;
+			p[i] = pattern == 0 ? 0x00 : pattern == 1 ? 0xff : pattern == 2 ? 0x5a : (unsigned char)(fillState >> 24);
+		}
+		++counters.dirtyConstructions;
+		return p;
+	}
+
 	// ---- c15 helpers
 	void resetModel(int r)
 	{
 		if(removerTarget[r] >= 0) for(size_t i = 0; i < removerItems[r].size(); ++i) detachModel(removerItems[r][i]);
+		removerItems[r].clear();
+	}
+	// reset() (direct or inside setDispatcher) left by an exception: every listener of the remover is attached or detached, the
+	// remover is still alive and stays involved; once it is gone the listeners must be gone (the limbo rule)
+	void interruptedReset(int r)
+	{
+		++counters.interruptedResets;
+		if(removerTarget[r] < 0) return;
+		for(size_t i = 0; i < removerItems[r].size(); ++i) {
+			const int cb = removerItems[r][i];
+			if(!slotIn[cb]) continue;
+			Limbo l; l.cb = cb; l.involved.insert(r); l.seenDetached = false;
+			limbo.push_back(l);
+			++counters.limboItems;
+			const int i2 = findItem(slotTarget[cb], slotKey[cb], cb);
+			if(i2 >= 0) lists[slotTarget[cb]][slotKey[cb]].erase(lists[slotTarget[cb]][slotKey[cb]].begin() + i2);
+			slotIn[cb] = false;
+		}
 		removerItems[r].clear();
 	}
 	void limboRename(int from, int to) { for(size_t i = 0; i < limbo.size(); ++i) if(limbo[i].involved.count(from)) limbo[i].involved.insert(to); }
@@ -416,30 +490,35 @@ struct Interp : Sink
 		}
 		case O_RESET: {
 			if(!removers[r]) return;
-			{ FaultArm arm; removers[r]->reset(); }
+			// looking the event up is user code (hash, ==) and may throw out of reset(): the remover then stays responsible for
+			// whatever it had not detached yet - at the latest its destruction detaches it
+			try { FaultArm arm; removers[r]->reset(); }
+			catch(...) { interruptedReset(r); throw; }
 			++counters.resets;
 			resetModel(r);
 			break;
 		}
 		case O_SET_TARGET: {
 			if(!removers[r]) return;
-			{ FaultArm arm; TG::setTarget(*removers[r], *targets[t]); }
+			try { FaultArm arm; TG::setTarget(*removers[r], *targets[t]); }
+			catch(...) { interruptedReset(r); throw; }
 			++counters.retargets;
 			if(removerTarget[r] != t) { resetModel(r); removerTarget[r] = t; }
 			break;
 		}
 		case O_CREATE: {
 			if(removers[r]) return;
+			void * mem = dirty(r);
 			FaultArm arm;
-			if(op.a & 1) { removers[r] = new Scoped(); removerTarget[r] = -1; }
-			else { removers[r] = new Scoped(*targets[t]); removerTarget[r] = t; }
+			if(op.a & 1) { removers[r] = new (mem) Scoped(); removerTarget[r] = -1; }
+			else { removers[r] = new (mem) Scoped(*targets[t]); removerTarget[r] = t; }
 			removerItems[r].clear();
 			break;
 		}
 		case O_MOVE_CONSTRUCT: {
 			const int src = op.a % NREMOVER;
 			if(removers[r] || !removers[src] || src == r) return;
-			{ FaultArm arm; removers[r] = new Scoped(std::move(*removers[src])); }
+			{ void * mem = dirty(r); FaultArm arm; removers[r] = new (mem) Scoped(std::move(*removers[src])); }
 			++counters.moveConstructs;
 			removerTarget[r] = removerTarget[src];
 			removerItems[r] = removerItems[src];
@@ -487,7 +566,7 @@ struct Interp : Sink
 		}
 		case O_DESTROY: {
 			if(!removers[r]) return;
-			delete removers[r]; removers[r] = nullptr;
+			removers[r]->~Scoped(); removers[r] = nullptr;
 			++counters.destroys;
 			resetModel(r);
 			removerTarget[r] = -1;
@@ -504,6 +583,7 @@ struct Interp : Sink
 		case O_C_ADD: case O_X_ADD: case O_P_ADD: {
 			const int cb = op.a;
 			if(cb < 0 || cb >= MAXSLOT - 2 || slotUsed[cb]) return;
+			if(op.k == O_X_ADD && !TG::conditional) return;
 			const int how = op.c & 3, howc = how > 2 ? 0 : how;
 			int before = (op.c >> 8) & 63;
 			if(before >= MAXSLOT) before = MAXSLOT - 1;
@@ -568,7 +648,7 @@ struct Interp : Sink
 				const bool attached = std::find(seen.begin(), seen.end(), limbo[j].cb) != seen.end();
 				if(!attached) limbo[j].seenDetached = true;
 				if(attached && limbo[j].involved.empty()) {
-					viol.raise("listener-outlives-removers", std::string(when) + ": listener " + std::to_string(limbo[j].cb) + " was added through a remover, that remover was the destination of a move assignment, and all removers involved are gone, yet the listener is still attached");
+					viol.raise("listener-outlives-removers", std::string(when) + ": listener " + std::to_string(limbo[j].cb) + " was added through a remover, that remover was the destination of a move assignment or had a reset() interrupted by an exception, and all removers involved are gone, yet the listener is still attached");
 				}
 			}
 		}
@@ -596,9 +676,10 @@ struct Interp : Sink
 			fc.countdown = arm; fc.lastFired = -1;
 			{
 				// throwing comparisons / hashes of the event type: injected into the listener-management operations (which must leave
-				// everything as it was), not into triggers, resets, moves and destructions (the latter are noexcept by design)
+				// everything as it was) and into reset / re-targeting (which may stop half way but must not lose responsibility),
+				// not into triggers, moves and destructions (the latter are noexcept by design)
 				const int kd = ops[i].k;
-				const bool mgmt = kd == O_R_ADD || kd == O_D_ADD || kd == O_R_REMOVE || kd == O_D_REMOVE || kd == O_C_ADD || kd == O_X_ADD || kd == O_P_ADD;
+				const bool mgmt = kd == O_R_ADD || kd == O_D_ADD || kd == O_R_REMOVE || kd == O_D_REMOVE || kd == O_C_ADD || kd == O_X_ADD || kd == O_P_ADD || kd == O_RESET || kd == O_SET_TARGET;
 				fc.mask = mgmt ? 0x1fu : (0x1fu & ~(1u << F_CMP));
 			}
 			const long before = fc.passed;
@@ -642,7 +723,7 @@ struct Interp : Sink
 template <typename TG>
 void runTarget(const Plan & plan, RunOut & out)
 {
-	const bool faultMode = engine::mode == "c09";
+	const bool faultMode = engine::mode == "c09" || engine::mode == "c15f";
 	const bool c16 = engine::mode == "c16" || (faultMode && (plan.cfg[CFG_VARIANT] & 1));
 	struct One
 	{
@@ -650,7 +731,13 @@ void runTarget(const Plan & plan, RunOut & out)
 		{
 			Interp<TG> * in = new Interp<TG>(plan, c16);
 			g_sink = in;
-			in->execute(faults);
+			if(TG::inSim) {
+				std::string fc, fd;
+				Interp<TG> * ip = in;
+				const std::vector<int> * fp = &faults;
+				if(!seq::runInOneTask([ip, fp]() { ip->execute(*fp); }, fc, fd)) { out.fail(fc, fd); g_sink = nullptr; return; } // leaked: the fiber may reference it
+			}
+			else in->execute(faults);
 			if(in->viol.set) out.fail(in->viol.cls, in->viol.detail);
 			if(passed) *passed = in->passedPerOp;
 			if(lh) *lh = in->logHash;
@@ -690,6 +777,10 @@ void runVariant1(const Plan & p, RunOut & o) { runTarget<DispTarget>(p, o); }
 void runVariant2(const Plan & p, RunOut & o) { runTarget<QueueTarget>(p, o); }
 #elif SEQ_VARIANT == 3
 void runVariant3(const Plan & p, RunOut & o) { runTarget<HeterTarget>(p, o); }
+#elif SEQ_VARIANT == 4
+void runVariant4(const Plan & p, RunOut & o) { runTarget<HeterRefTarget>(p, o); }
+#elif SEQ_VARIANT == 5
+void runVariant5(const Plan & p, RunOut & o) { runTarget<SpinListTarget>(p, o); }
 #endif
 
 } // namespace sr
@@ -699,7 +790,7 @@ void runVariant3(const Plan & p, RunOut & o) { runTarget<HeterTarget>(p, o); }
 namespace sr {
 Sink * g_sink = nullptr;
 Counters counters;
-void runVariant0(const Plan &, RunOut &); void runVariant1(const Plan &, RunOut &); void runVariant2(const Plan &, RunOut &); void runVariant3(const Plan &, RunOut &);
+void runVariant0(const Plan &, RunOut &); void runVariant1(const Plan &, RunOut &); void runVariant2(const Plan &, RunOut &); void runVariant3(const Plan &, RunOut &); void runVariant4(const Plan &, RunOut &); void runVariant5(const Plan &, RunOut &);
 }
 
 namespace engine {
@@ -739,7 +830,7 @@ static void genC15(sim::Rng & rng, sim::Plan & plan, int len)
 	}
 }
 
-static void genC16(sim::Rng & rng, sim::Plan & plan, int len)
+static void genC16(sim::Rng & rng, sim::Plan & plan, int len, bool noCond)
 {
 	using namespace sr;
 	OpList & ops = plan.tasks[0];
@@ -754,6 +845,7 @@ static void genC16(sim::Rng & rng, sim::Plan & plan, int len)
 		const int how = (int)rng.below(3);
 		const int retrig = rng.chance(1, 4) ? 8 : 0;
 		if(q < 16 && nextCb < MAXSLOT - 4) { const uint32_t xr = rng.below(40); const int n = xr == 0 ? INT_MIN : xr == 1 ? INT_MIN + 1 : xr == 2 ? INT_MAX : (int)rng.below(9) - 3; ops.push_back(Op(O_C_ADD, nextCb, n, how | retrig | (slot << 8), d)); known.push_back(nextCb++); }
+		else if(q < 30 && nextCb < MAXSLOT - 4 && noCond) { const int n = (int)rng.below(6) - 1; ops.push_back(Op(O_C_ADD, nextCb, n, how | retrig | (slot << 8), d)); known.push_back(nextCb++); }
 		else if(q < 30 && nextCb < MAXSLOT - 4) { const int pattern = (int)rng.below(256); const int takesArg = rng.chance(1, 2) ? 4 : (rng.chance(1, 3) ? 16 : 0); ops.push_back(Op(O_X_ADD, nextCb, pattern, how | takesArg | retrig | (slot << 8), d)); known.push_back(nextCb++); }
 		else if(q < 40 && nextCb < MAXSLOT - 4) { ops.push_back(Op(O_P_ADD, nextCb, 0, how | retrig | (slot << 8), d)); known.push_back(nextCb++); }
 		else if(q < 47) ops.push_back(Op(O_D_REMOVE, 0, slot, 0, d));
@@ -767,20 +859,26 @@ void generate(uint64_t seed, Plan & plan)
 	using namespace sr;
 	Rng rng(seed);
 	plan.setSchedSeed(rng.next());
-	const bool fault = mode == "c09";
-	const bool c16 = mode == "c16" || (fault && rng.chance(1, 2));
+	const bool fault = mode == "c09" || mode == "c15f";
+	const bool c16 = mode == "c16" || (mode == "c09" && rng.chance(1, 2));
 	plan.cfg[CFG_VARIANT] = c16 ? 1 : 0;
-	plan.user(U_VARIANT) = c16 ? (int)rng.below(V_COUNT) : (int)rng.below(V_COUNT - 1);
+	// Counter/ConditionalRemover: list, dispatcher, queue and the two heterogeneous targets; ScopedRemover: list, dispatcher, queue
+	// and the list whose mutexes are real SpinLocks. Mode c20: the SpinLock variant only (its point is the storage fill).
+	static const int v16[] = { V_LIST, V_DISPATCHER, V_QUEUE, V_HETER, V_HETER_REF }, v15[] = { V_LIST, V_DISPATCHER, V_QUEUE, V_LIST_SPIN };
+	plan.user(U_VARIANT) = mode == "c20" ? (int)V_LIST_SPIN : c16 ? v16[rng.below(5)] : v15[rng.below(4)];
+	plan.user(U_FILL) = (int)rng.below(4);
 	plan.tasks.assign(1, OpList());
 	const int len = fault ? 4 + (int)rng.below(8) : 10 + (int)rng.below(30);
-	if(c16) genC16(rng, plan, len); else genC15(rng, plan, len);
+	if(c16) genC16(rng, plan, len, plan.user(U_VARIANT) == V_HETER_REF); else genC15(rng, plan, len);
 }
 
 void execute(const Plan & plan, RunOut & out)
 {
+	seq::installHooks();
 	const int v = plan.user(sr::U_VARIANT);
 	switch(v) {
 	case 0: sr::runVariant0(plan, out); break; case 1: sr::runVariant1(plan, out); break; case 2: sr::runVariant2(plan, out); break;
+	case 4: sr::runVariant4(plan, out); break; case 5: sr::runVariant5(plan, out); break;
 	default: sr::runVariant3(plan, out); break;
 	}
 	++sr::counters.plans;
@@ -795,12 +893,14 @@ void execute(const Plan & plan, RunOut & out)
 
 std::string describe(const Plan & plan)
 {
-	static const char * vn[] = { "CallbackList<void(int)>", "EventDispatcher<int,void(int)>", "EventQueue<int,void(int)>", "HeterEventDispatcher<int,{void(int),void()}>" };
+	static const char * vn[] = { "CallbackList<void(int)>", "EventDispatcher<int,void(int)>", "EventQueue<int,void(int)>", "HeterEventDispatcher<int,{void(int),void()}>",
+		"HeterEventDispatcher<int,{void(Derived),void(Base&)}>", "CallbackList<void(int)> with SpinLock mutexes, one simulated task" };
 	static const char * names[] = { "?", "addThroughRemover", "addDirectly", "removeThroughRemover", "removeDirectly", "reset", "setTarget", "moveConstruct", "moveAssign", "swap", "destroyRemover",
 		"createRemover", "trigger", "counterAdd", "conditionalAdd", "plainAdd", "queuedTrigger" };
 	std::ostringstream o;
 	const int v = plan.user(sr::U_VARIANT);
-	o << (plan.cfg[CFG_VARIANT] & 1 ? "Counter/ConditionalRemover on " : "ScopedRemover on ") << (v >= 0 && v < sr::V_COUNT ? vn[v] : "?") << " :";
+	static const char * fn[] = { "0x00", "0xff", "0x5a", "pseudo-random" };
+	o << (plan.cfg[CFG_VARIANT] & 1 ? "Counter/ConditionalRemover on " : "ScopedRemover (built in storage filled with ") << ((plan.cfg[CFG_VARIANT] & 1) ? "" : fn[plan.user(sr::U_FILL) & 3]) << ((plan.cfg[CFG_VARIANT] & 1) ? "" : " bytes) on ") << (v >= 0 && v < sr::V_COUNT ? vn[v] : "?") << " :";
 	if(!plan.tasks.empty()) for(size_t i = 0; i < plan.tasks[0].size(); ++i) {
 		const Op & op = plan.tasks[0][i];
 		o << " " << (op.k >= 1 && op.k < sr::O_KINDS ? names[op.k] : "?");
@@ -821,7 +921,7 @@ void statsJson(std::string & out)
 {
 	const sr::Counters & c = sr::counters;
 	std::ostringstream o;
-	o << ",\"probes\":{\"ops\":" << c.ops << ",\"adds_through_remover\":" << c.addsThroughRemover << ",\"removes_through_remover\":" << c.removesThroughRemover << ",\"resets\":" << c.resets
+	o << ",\"probes\":{\"ops\":" << c.ops << ",\"adds_through_remover\":" << c.addsThroughRemover << ",\"removes_through_remover\":" << c.removesThroughRemover << ",\"removers_built_in_dirtied_storage\":" << c.dirtyConstructions << ",\"resets\":" << c.resets << ",\"resets_interrupted_by_a_throwing_event_lookup\":" << c.interruptedResets
 	  << ",\"retargets\":" << c.retargets << ",\"move_constructs\":" << c.moveConstructs << ",\"move_assigns\":" << c.moveAssigns << ",\"move_assign_into_non_empty_remover\":" << c.moveAssignIntoNonEmpty
 	  << ",\"displaced_items_in_limbo\":" << c.limboItems << ",\"swaps\":" << c.swaps << ",\"remover_destructions\":" << c.destroys << ",\"triggers\":" << c.triggers << ",\"queued_triggers\":" << c.queuedTriggers
 	  << ",\"listener_calls\":" << c.listenerCalls << ",\"counter_adds\":" << c.counterAdds << ",\"counts_zero_or_negative\":" << c.nonPositiveCounts << ",\"conditional_adds\":" << c.conditionalAdds
